@@ -113,6 +113,7 @@ func (vc *VC) loopHeader(fr *frame, n *Node, phis []*ssa.Phi, entryVals map[*ssa
 		fr.loopPre = map[int]*State{}
 	}
 	fr.loopPre[l.ordinal] = n.st.clone()
+	l.entryVals = entryVals
 	// 1. entry obligations
 	if lc != nil {
 		for k, inv := range lc.Invariants {
@@ -186,6 +187,43 @@ func (vc *VC) loopHeader(fr *frame, n *Node, phis []*ssa.Phi, entryVals map[*ssa
 		vc.enc.notes[fmt.Sprintf("loop %d of %s has no invariant (havoc only)", l.ordinal, fr.fn.Name())] = true
 	}
 	_ = preSt
+	l.entryVals = entryVals
+	if lc != nil {
+		for i := range lc.MustCalls {
+			name := mustFlag(l, i)
+			e.mapMemSorts[name] = "Bool"
+			n.st.mem[name] = "false"
+		}
+	}
+	l.hdrSt = n.st.clone()
+	l.hdrVals = hv
+}
+
+func mustFlag(l *LoopInfo, i int) string { return fmt.Sprintf("called.%d.%d", l.ordinal, i) }
+
+// mustCallMark: a call of callee happens at node n; every enclosing loop with a mustcall clause for it records
+// whether the arguments satisfy the clause's condition.
+func (vc *VC) mustCallMark(fr *frame, n *Node, x *ssa.Call, callee string, args []Val) {
+	for l := fr.innermostLoop(n.blk); l != nil; l = l.parent {
+		if l.contract == nil {
+			continue
+		}
+		for i, mc := range l.contract.MustCalls {
+			if mc.Callee != callee {
+				continue
+			}
+			mc.Hits++
+			ctx := &SpecCtx{vc: vc, lookup: vc.nodeLookup(fr, n, x, args), st: n.st, oldSt: fr.entrySt, oldLookup: func(name string) (Val, bool) { return vc.paramLookup(fr, name) }, pkg: fr.fn.Pkg.Pkg, fnName: fr.fn.Name(), fr: fr, loop: l}
+			t, err := ctx.EvalBool(mc.ArgCond)
+			if err != nil {
+				vc.errorf("mustcall %s %q: %v", callee, mc.Text, err)
+				continue
+			}
+			name := mustFlag(l, i)
+			cur := vc.memAtByName(n.st, name)
+			n.st.mem[name] = vc.def(name, "Bool", or(cur, t))
+		}
+	}
 }
 
 // rangeIndexShape: phi [-1, t, t, ...] where t = phi + 1.
@@ -259,6 +297,20 @@ func (vc *VC) backEdge(fr *frame, ed *Edge) {
 		}
 		vc.oblige("invariant-step", fmt.Sprintf("loop%d.inv%s.step.b%d", l.ordinal, labelOr(inv.Label, k), ed.from.blk.Index), inv.Text, pos, ed.cond, t)
 	}
+	for i, mc := range lc.MustCalls {
+		ctx := &SpecCtx{vc: vc, lookup: vc.nodeLookup(fr, ed.from, nil, nil), st: ed.from.st, oldSt: fr.entrySt, oldLookup: func(name string) (Val, bool) { return vc.paramLookup(fr, name) }, pkg: fr.fn.Pkg.Pkg, fnName: fr.fn.Name(), fr: fr, loop: l}
+		w, err := ctx.EvalBool(mc.When)
+		if err != nil {
+			// a variable of the condition is not declared yet on this path (e.g. an early `continue`): the clause
+			// does not apply to this edge; it is an error only if it applies to no edge at all (checked after the body)
+			mc.Skipped++
+			vc.enc.notes[fmt.Sprintf("loop %d of %s: mustcall %s does not apply to the back edge from block %d (%v)", l.ordinal, fr.fn.Name(), mc.Callee, ed.from.blk.Index, err)] = true
+			continue
+		}
+		mc.Applied++
+		flag := vc.memAtByName(ed.from.st, mustFlag(l, i))
+		vc.oblige("mustcall", fmt.Sprintf("loop%d.mustcall%s.b%d", l.ordinal, labelOr(mc.Label, i), ed.from.blk.Index), "mustcall "+mc.Callee+" "+mc.Text, pos, ed.cond, implies(w, flag))
+	}
 	if lc.Decreases != nil {
 		// value at header (havoced phis) vs value after the iteration
 		hv := map[*ssa.Phi]Val{}
@@ -286,7 +338,7 @@ func (vc *VC) loopCtx(fr *frame, l *LoopInfo, hdr, envNode *Node, phiVals map[*s
 		return vc.resolveAtHeader(fr, l, hdr, envNode, phiVals, st, name)
 	}
 	entryLookup := func(name string) (Val, bool) { return vc.paramLookup(fr, name) }
-	ctx := &SpecCtx{vc: vc, lookup: lookup, st: st, oldSt: fr.entrySt, oldLookup: entryLookup, pkg: fr.fn.Pkg.Pkg, fnName: fr.fn.Name(), fr: fr}
+	ctx := &SpecCtx{vc: vc, lookup: lookup, st: st, oldSt: fr.entrySt, oldLookup: entryLookup, pkg: fr.fn.Pkg.Pkg, fnName: fr.fn.Name(), fr: fr, loop: l}
 	for _, in := range l.header.Instrs {
 		if nx, ok := in.(*ssa.Next); ok && !nx.IsString {
 			if rg, ok := nx.Iter.(*ssa.Range); ok {
